@@ -271,7 +271,16 @@ func (o *oidcHandler) redirectToIDP(ctx context.Context, log telemetry.Logger,
 		"code_challenge":        []string{oauth2.S256ChallengeFromVerifier(codeVerifier)},
 		"code_challenge_method": []string{"S256"},
 	}
-	redirectURL := o.config.GetAuthorizationUri() + "?" + query.Encode()
+	// The authorization endpoint may carry a query of its own (RFC 6749 section 3.1 requires it
+	// to be retained): append the parameters to it instead of starting a second query.
+	redirectURL := o.config.GetAuthorizationUri()
+	switch {
+	case !strings.Contains(redirectURL, "?"):
+		redirectURL += "?"
+	case !strings.HasSuffix(redirectURL, "?") && !strings.HasSuffix(redirectURL, "&"):
+		redirectURL += "&"
+	}
+	redirectURL += query.Encode()
 
 	// Generate denied response with redirect headers
 	deny := newDenyResponse()
